@@ -19,7 +19,8 @@ RULE = ("generated call DAGs of 2-7 nodes over 6 memento functions (one in a nam
         "forgotten, then the root is invoked singly or as a batch on filesystem / filesystem+cache stores and "
         "the records of every recomputed call are compared with the closed form; non-trivial = distinct "
         "(tree, subset) runs in which >=1 sub-call was served from the store and >=1 was recomputed"
-        "; some runs open the named cluster's store read-only")
+        "; some runs open the named cluster's store read-only"
+        '; rounds 7-9: trees evaluated by a worker thread, aimed batches over two nodes of one function, a third of the trees under context arguments attached at the root and at inner edges')
 ASSUMPTIONS = ["the closed form lists every memento call a body makes, in program order, duplicates included, "
                "whether it returned, raised a memoized exception or a not-to-be-memoized one",
                "explicitly versioned functions are used so that no dependency validation interferes"]
